@@ -155,12 +155,29 @@ def _parser_tables() -> list[str]:
             and isinstance(n.comparators[0], ast.Constant) and isinstance(n.left, ast.Call) and "format" in ast.unparse(n.left)}
     if fmts != {"binary"}:
         raise TranslatorError(f"parse_response: stream-making schema formats {fmts}")
-    return ["(* core/loader/responses/parser.py *)", _clist("stream_formats", keys)]
+    vals = _strs(ast.List(elts=d[0].values), "STREAM_FORMATS values")
+    table = "Definition stream_format_table : list (list N * list N) := [" + "; ".join(
+        f"({cstr(k)}, {cstr(v)})" for k, v in zip(keys, vals)) + "]."
+    return ["(* core/loader/responses/parser.py *)", _clist("stream_formats", keys), table]
+
+
+def _ndjson_tables() -> list[str]:
+    """_is_ndjson_stream: response_ir.stream_format != <fmt> … not any(<word> in content_type …)"""
+    mod = _parse("visit/endpoint/generators/response_handler_generator.py")
+    fn = _find_func(_find_class(mod, "EndpointResponseHandlerGenerator"), "_is_ndjson_stream")
+    fmts = {n.comparators[0].value for n in ast.walk(fn) if isinstance(n, ast.Compare) and isinstance(n.ops[0], ast.NotEq)
+            and isinstance(n.comparators[0], ast.Constant) and isinstance(n.comparators[0].value, str)
+            and ast.unparse(n.left).endswith(".stream_format")}
+    words = {n.left.value for n in ast.walk(fn) if isinstance(n, ast.Compare) and isinstance(n.ops[0], ast.In)
+             and isinstance(n.left, ast.Constant) and isinstance(n.left.value, str)}
+    if len(fmts) != 1 or words != {"event-stream"}:
+        raise TranslatorError(f"_is_ndjson_stream: formats {fmts}, excluded substrings {words}")
+    return ["(* response_handler_generator._is_ndjson_stream *)", f"Definition s_fmt_ndjson : list N := {cstr(fmts.pop())}."]
 
 
 def render() -> str:
     lines = ["(* GENERATED by harness/tables_C05.py from the repository's src/ — do not edit *)",
              "From Coq Require Import List NArith.", "Import ListNotations.", "Open Scope N_scope.", ""]
-    for sec in (_handler_tables, _strategy_tables, _parser_tables):
+    for sec in (_handler_tables, _strategy_tables, _parser_tables, _ndjson_tables):
         lines += sec() + [""]
     return "\n".join(lines)
